@@ -105,6 +105,36 @@ func runC11(args []string) error {
 			one(rtCase{API: "extended", W: w, H: h, C: 1, P: 12, Quality: q, Cls: cls}, gen(cls, w, h, 1, 4095))
 		}
 	}
+	// deep Huffman codes: a large smooth image with a few full-range features; the per-image optimal tables give the
+	// rare large-magnitude symbols 12..16-bit codes followed by up to 15 magnitude bits (12-bit extended process)
+	ndeep := 20
+	if f.exh >= 2 {
+		ndeep = 40
+	}
+	for i := 0; i < ndeep; i++ {
+		w, h := 200+r.Intn(57), 200+r.Intn(57)
+		q := []int{100, 100, 98, 100, 100}[i%5] // quality 100: the largest magnitudes, hence the longest code + magnitude-bit pairs
+		p, api := 12, "extended"
+		if i%5 == 2 {
+			p, api = 8, []string{"baseline", "extended"}[r.Intn(2)]
+		}
+		maxval := (1 << p) - 1
+		s := make([]int, w*h)
+		for y := 0; y < h; y++ {
+			for x := 0; x < w; x++ {
+				s[y*w+x] = maxval/4 + (x+y)*maxval/(4*(w+h)) + r.Intn(3)
+			}
+		}
+		for k := 0; k < 2+r.Intn(3); k++ { // isolated 8x8 blocks of alternating 0 / max
+			bx, by := 8*r.Intn(w/8-1), 8*r.Intn(h/8-1)
+			for y := 0; y < 8; y++ {
+				for x := 0; x < 8; x++ {
+					s[(by+y)*w+bx+x] = ((x + y) % 2) * maxval
+				}
+			}
+		}
+		one(rtCase{API: api, W: w, H: h, C: 1, P: p, Quality: q, Cls: "deephuff"}, s)
+	}
 	fmt.Printf("c11: scenarios=%d events=%d\n", scn, t.n)
 	return nil
 }
